@@ -238,6 +238,8 @@ def r_div(a, b, ctx=None):
         return zr(a) / zr(b)
     if ctx is not None:
         ctx.definedness(z(b) != 0, "divisor non-zero")
+    if is_conc(a) and _num(a) == 0:
+        return 0
     return zr(a) / zr(b)
 
 
